@@ -148,8 +148,8 @@ def r14_1(ctx):
     ctx.check("reset() restores the three state holders", {c for c, _ in R} == set(S), str(sorted(S)), str(sorted({c for c, _ in R})), fn_where(idx, idx.func("RZILTransformer.reset")))
 
 
-@rule("R14.6", "C14", "reset() is unconditional and reaches the state it is meant to reset: every path performs all resets; no other object keeps a private reference to state that reset() replaces; long-lived parameters render alike on every read", min_instances=6)
-def r14_6(ctx):
+def reset_is_unconditional(ctx):
+    """every path through RZILTransformer.reset() performs all resets (no early return, no condition)"""
     idx = get_index(ctx.env)
     fr = idx.func("RZILTransformer.reset")
     ps = [p for p in paths_of(fr.node) if p.outcome in ("return", "fallthrough", "end") or p.outcome not in ("raise",)]
@@ -164,6 +164,12 @@ def r14_6(ctx):
     must = {"self.ext.reset_flags", "self.il_ops_holder.clear"}
     ctx.check("reset() resets the attribute flags and the operand holder", must <= set(union) or any("ILOpsHolder" in (c or "") for c in union) and "self.ext.reset_flags" in union,
               "ext.reset_flags() and a cleared (or fresh) holder", str(union), fn_where(idx, fr), nontrivial=False)
+
+
+@rule("R14.6", "C14", "reset() is unconditional and reaches the state it is meant to reset: every path performs all resets; no other object keeps a private reference to state that reset() replaces; long-lived parameters render alike on every read", min_instances=6)
+def r14_6(ctx):
+    idx = get_index(ctx.env)
+    reset_is_unconditional(ctx)
     # aliasing: an attribute that some method other than the constructor re-binds must not be cached in another object
     rebound = {}
     for fi in idx.funcs.values():
@@ -192,8 +198,11 @@ def r14_6(ctx):
 
     external_parameter_checks(ctx)
     # results of the other long-lived entry points are built in containers of the call itself
+    from .c06 import pending_effect_placement
     from .c18 import parse_result_is_private
     from .c20 import merged_list_is_private
+
+    pending_effect_placement(ctx)  # the order of pending effects does not depend on the numbers left in the never-reset counter
 
     parse_result_is_private(ctx)
     merged_list_is_private(ctx)
